@@ -84,6 +84,50 @@ theorem redundant_parentheses_change_only_coordinates (e : E) (m : Nat) (hwf0 : 
   rwa [erase_mapCoords, erase_mapCoords] at this
 
 /-! ## ... for the whole expression grammar of `Proofs/FullExpr.lean` -/
+
+open PycModel.View PycModel.TypeName PycModel.DeclSkel PycModel.TypeModify PycModel.BuildDecl in
+theorem typeNames_names : ∀ (l : List Tk) (n m : Nat),
+    (typeNames n l).map (·.1) = (typeNames m l).map (·.1)
+  | [], _, _ => rfl
+  | t :: r, n, m => by
+    simp only [typeNames]
+    split
+    · simp [typeNames_names r (n + 1) (m + 1)]
+    · exact typeNames_names r (n + 1) (m + 1)
+
+open PycModel.View PycModel.TypeName PycModel.DeclSkel PycModel.TypeModify PycModel.BuildDecl in
+theorem erase_chain_stars : ∀ (stars : List (List Tk)) (a b : Nat) (t t' : Val), erase t = erase t' →
+    erase (chainVal ((starPairs a stars).map pairM).reverse t) = erase (chainVal ((starPairs b stars).map pairM).reverse t')
+  | [], _, _, t, t', h => by simpa [starPairs, chainVal] using h
+  | q :: r, a, b, t, t', h => by
+    simp only [starPairs, List.map_cons, List.reverse_cons, chainVal_append, chainVal]
+    apply erase_chain_stars r
+    simp only [pairM, M.wrap, mk, erase, eraseL, h]
+
+open PycModel.View PycModel.TypeName PycModel.DeclSkel PycModel.TypeModify PycModel.BuildDecl in
+/-- the coordinate-free AST of a type name does not depend on where its tokens are -/
+theorem erase_tnval (tn : TN) (n n' : Nat) : erase (tn.val n) = erase (tn.val n') := by
+  have hn := typeNames_names tn.specs n n'
+  simp only [TN.val]
+  cases h1 : typeNames n tn.specs with
+  | nil =>
+    rw [h1] at hn
+    cases h2 : typeNames n' tn.specs with
+    | nil => rfl
+    | cons p r => rw [h2] at hn; simp at hn
+  | cons p0 names =>
+    rw [h1] at hn
+    cases h2 : typeNames n' tn.specs with
+    | nil => rw [h2] at hn; simp at hn
+    | cons p0' names' =>
+      rw [h2] at hn
+      have hch := erase_chain_stars tn.stars (n + tn.specs.length) (n' + tn.specs.length)
+        (mk .TypeDecl none [.none, .list (tnQuals tn.specs), .none, identType p0.2 ((p0 :: names).map (·.1))])
+        (mk .TypeDecl none [.none, .list (tnQuals tn.specs), .none, identType p0'.2 ((p0' :: names').map (·.1))])
+        (by simp only [erase, eraseL, identType, mk, Val.strs]; rw [hn])
+      simp only [mk, erase, eraseL, TN.ms] at hch ⊢
+      rw [hch]
+
 open PycModel.FullExpr in
 /-- the coordinate-free AST of an expression does not depend on where its tokens are -/
 theorem erase_val_indep (e : X) : (∀ n n', erase (e.val n) = erase (e.val n')) ∧
@@ -140,6 +184,16 @@ theorem erase_val_indep (e : X) : (∀ n n', erase (e.val n) = erase (e.val n'))
     refine ⟨fun n n' => ?_, fun n n' => ?_⟩
     · simp only [X.val, mk, erase, eraseL]; rw [iha.1 n n', ihb.2 (n + a.ntoks + 1) (n' + a.ntoks + 1)]
     · simp only [X.items, eraseL]; rw [iha.1 n n', ihb.2 (n + a.ntoks + 1) (n' + a.ntoks + 1)]
+  | cast tn e ih =>
+    have h : ∀ n n', erase ((X.cast tn e).val n) = erase ((X.cast tn e).val n') := by
+      intro n n'; simp only [X.val, mk, erase, eraseL]
+      rw [erase_tnval tn (n + 1) (n' + 1), ih.1 (n + tn.ntoks + 2) (n' + tn.ntoks + 2)]
+    exact ⟨h, fun n n' => by have := h n n'; simp only [X.val] at this; simp only [X.items, eraseL, this]⟩
+  | szofT tn =>
+    have h : ∀ n n', erase ((X.szofT tn).val n) = erase ((X.szofT tn).val n') := by
+      intro n n'; simp only [X.val, mk, erase, eraseL]
+      rw [erase_tnval tn (n + 2) (n' + 2)]
+    exact ⟨h, fun n n' => by have := h n n'; simp only [X.val] at this; simp only [X.items, eraseL, this]⟩
 
 open PycModel.FullExpr PycModel.View in
 /-- **Redundant parentheses change nothing but coordinates, for the whole expression grammar**
